@@ -149,6 +149,27 @@ pub const CORPUS: &[&str] = &[
     "SELECT id, age FROM users WHERE (age > 30 AND vip) OR (age <= 30 AND NOT vip) ORDER BY id",
     "SELECT id FROM users WHERE age > 30 AND (vip OR score < 0) ORDER BY id",
     "SELECT id, amount FROM orders WHERE amount > -5.5 AND amount < 1000000 AND qty <> 0 ORDER BY id",
+    // scalar functions through the renderer
+    "SELECT id, substr(city, 1, 1) AS s1, substring(city FROM 2) AS s2, substring(city FROM 1 FOR 2) AS s3 FROM users ORDER BY id",
+    "SELECT id, position('N' IN city) AS p FROM users ORDER BY id",
+    "SELECT id, trim(city) AS t FROM users ORDER BY id",
+    "SELECT id, ltrim(city, 'N') AS l, rtrim(city, 'Y') AS r FROM users ORDER BY id",
+    "SELECT id, trim(BOTH 'N' FROM city) AS b, trim(LEADING 'N' FROM city) AS l, trim(TRAILING 'Y' FROM city) AS t FROM users ORDER BY id",
+    "SELECT id, ceil(score) AS c, floor(score) AS f, sign(score - 1) AS sg, pow(age, 2) AS p2, power(age, 0.5) AS p05 FROM users ORDER BY id",
+    "SELECT id, coalesce(score, 0) AS c2, coalesce(cast(age AS float), score) AS c3 FROM users ORDER BY id",
+    "SELECT id, greatest(age, score) AS g2, least(score, 1) AS l2 FROM users ORDER BY id",
+    "SELECT id, concat(city, '-', city) AS cc, city || '/' || city AS pp, upper(lower(city)) AS ul, md5(city) AS h FROM users ORDER BY id",
+    "SELECT o.id, round(u.score, 1) AS r1, trunc(u.score, 1) AS t1, trunc(u.score) AS t0, round(o.amount, 0) AS r0 FROM orders AS o JOIN users AS u ON o.user_id = u.id ORDER BY o.id",
+    "SELECT id, city ILIKE 'n%' AS il, city NOT LIKE 'N%' AS nl, city LIKE '%' AS al FROM users ORDER BY id",
+    "SELECT id, age BETWEEN 20 AND 40 AS b, age NOT BETWEEN 20 AND 40 AS nb, age NOT IN (20, 21) AS ni FROM users ORDER BY id",
+    "SELECT id, cast(score AS text) AS st, cast(vip AS text) AS vt FROM users ORDER BY id",
+    "SELECT id, cast('12' AS integer) AS i12, cast('1.5' AS float) AS f15 FROM users ORDER BY id",
+    "SELECT id, round(0, 1) AS z, round(0.0, 1) AS z2, trunc(0, 1) AS t FROM users ORDER BY id",
+    "SELECT id, exp(ln(age + 1)) AS el, log(age + 1) AS lg, sin(score) AS sn, cos(score) AS cs, abs(-age) AS ab FROM users ORDER BY id",
+    "SELECT id, CASE city WHEN 'NY' THEN 1 WHEN 'LA' THEN 2 ELSE 0 END AS cc, CASE WHEN age IS NULL THEN 'n' WHEN age > 30 THEN 'o' ELSE 'y' END AS g FROM users ORDER BY id",
+    "SELECT count(*) AS c, count(score) AS cs, sum(score) AS s, avg(score) AS a, min(score) AS mn, max(score) AS mx, stddev(score) AS sd, variance(score) AS v FROM users",
+    "SELECT city, count(DISTINCT age) AS da, avg(DISTINCT age) AS aa, min(city) AS mc, max(zip) AS mz FROM users GROUP BY city ORDER BY city",
+    "SELECT id, age FROM users WHERE city IN ('NY', 'LA') AND age NOT IN (20) AND NOT (score IS NULL) ORDER BY id",
     // one CTE read twice (a shared node of the relation graph)
     "WITH t AS (SELECT id, age FROM users WHERE age > 20) SELECT a.id, b.age FROM t AS a JOIN t AS b ON a.id = b.id ORDER BY a.id",
     "WITH t AS (SELECT city, count(*) AS c FROM users GROUP BY city) SELECT city, c FROM t UNION ALL SELECT city, c FROM t",
